@@ -29,7 +29,7 @@ PLAN = {
     'C13': [('hist', 120, 1200, 14)],
     'C14': [('hist', 96, 900, 8)],
     'C15': [('backup', 10, 60, 0)],
-    'C16': [('hist', 16, 120, 6), ('merge', 1, 1, 0)],
+    'C16': [('hist', 28, 300, 9), ('merge', 1, 1, 0), ('cleanbulk', 10, 57, 0)],
     'C17': [('fault', 40, 200, 0)],
     'C18': [('hist', 96, 900, 14), ('fdsync', 4, 16, 0)],
 }
@@ -43,7 +43,7 @@ def run_case(args):
         if family == 'hist':
             import hist
             d = hist.run_history(prop, seed, index, steps, big=(tier == 'thorough'), record=rec)
-        elif family in ('roundtrip', 'streamprog', 'merge', 'fdsync'):
+        elif family in ('roundtrip', 'streamprog', 'merge', 'fdsync', 'cleanbulk'):
             import units
             d = getattr(units, family)(prop, seed, index, tier)
         elif family in ('crash', 'fault'):
